@@ -206,16 +206,15 @@ Theorem C04_implicit_surface_value : forall cells surfs (id : Z) tr ss,
 Proof. exact implicit_surface_value. Qed.
 Print Assumptions C04_implicit_surface_value.
 
-(* ---------- SQ (DESIGN §8 #19, repaired in 5f0340e) ---------- *)
-(* [sq_sign q] = -1 when the SQ function is positive at its own (x, y, z), else 1:
-   the sign rule of sq_to_gq.  Untransformed and transformed SQ surfaces are QUADs
-   with the same rule: value = sq_sign * SQ function at the (back-transformed) point *)
+(* ---------- SQ (DESIGN §8 #19 repaired in 5f0340e, #17 in 66f68d1) ---------- *)
+(* untransformed and transformed SQ surfaces are QUADs whose value at the (moved)
+   point is the SQ function, coefficients as given, at the (original) point *)
 Theorem C04_frame_transform_sq : forall (q : list R) (o : R3) (b : M3 R) pt u nap (p' : R3),
   List.length q = 10%nat -> rows_orthonormal b ->
   let s := mkMS KSQ pt u q nap in
-  (exists c0, convert RS s = Ok [(c0, 1%Z)] /\ t4val c0 p' = sq_sign q * msense s p') /\
+  (exists c0, convert RS s = Ok [(c0, 1%Z)] /\ t4val c0 p' = msense s p') /\
   (exists c, tr_convert RS (vlist o ++ mlist b) s = Ok [(c, 1%Z)] /\
-             t4val c (to_main o b p') = sq_sign q * msense s p').
+             t4val c (to_main o b p') = msense s p').
 Proof. exact frame_transform_sq. Qed.
 Print Assumptions C04_frame_transform_sq.
 
